@@ -62,6 +62,9 @@ impl<TStorage: ?Sized + AsyncWritableStorageTraits + 'static> Array<TStorage> {
                         .await?;
 
                     metadata.attributes = serde_json::Map::default();
+                } else {
+                    // No attributes: a previously stored .zattrs must not linger
+                    storage_transformer.erase(&meta_key_v2_attributes(path)).await?;
                 }
 
                 // Store .zarray
